@@ -63,6 +63,16 @@ func lockstepObligations(w *World, fnName string, ct *Contract, rel relSpec, pro
 	type decl struct{ name, sort string }
 	var consts []decl
 	var linesA, linesB []string
+	// a constant that define() declared and then fixed by an equation (integer sums are named this
+	// way, exec.go) is a derived value, not an arbitrary one: relating the two copies of it by
+	// equality would assume the very agreement the obligations are to establish
+	derived := map[string]bool{}
+	for i, l := range fx.lines {
+		if m := declRe.FindStringSubmatch(l); m != nil && m[1] == "declare-const" && i+1 < len(fx.lines) &&
+			strings.HasPrefix(fx.lines[i+1], "(assert (= "+m[2]+" ") {
+			derived[m[2]] = true
+		}
+	}
 	for _, l := range fx.lines {
 		m := declRe.FindStringSubmatch(l)
 		if m != nil {
@@ -71,7 +81,9 @@ func lockstepObligations(w *World, fnName string, ct *Contract, rel relSpec, pro
 			case "declare-fun":
 				// shared uninterpreted function (declared once)
 			case "declare-const":
-				if !sharedSymbol(name) {
+				if derived[name] {
+					rename[name] = true
+				} else if !sharedSymbol(name) {
 					rename[name] = true
 					sort := strings.TrimSpace(m[3])
 					if k := strings.Index(sort, " ;"); k >= 0 {
